@@ -821,33 +821,42 @@ def create_binary_event_files(event_file,
 
     number_events = 0
     job_errors = []
+    # set by the callbacks (result handler thread of the pool), read by the
+    # submit loop; the pool itself is only closed by the submitting thread, as
+    # closing it while apply_async is running can lose the submitted job
+    stop_submitting = False
 
     with multiprocessing.Pool(n_jobs) as pool:
 
         def _error_callback(error):
+            nonlocal stop_submitting
             if isinstance(error, StopIteration):
                 _, result = error.value
                 nonlocal number_events
                 number_events += result  # pylint: disable=undefined-variable
-                pool.close()
+                stop_submitting = True
             else:
                 # raising here would kill the result handler thread of the
                 # pool; stop submitting and raise after the pool is joined
                 job_errors.append(error)
-                pool.close()
+                stop_submitting = True
 
         def _callback(result):
-            nonlocal number_events
+            nonlocal number_events, stop_submitting
             number_events += result
             if result == 0:
                 # the previous file ended exactly at the last event
-                pool.close()
+                stop_submitting = True
             if verbose:
                 print("finished job")
                 sys.stdout.flush()
 
         ii = 0
         while True:
+            if stop_submitting:
+                if verbose:
+                    print("reached end of events")
+                break
             kwargs = {
                 "file_name": os.path.join(path_name, "events_0_%i.dat" % ii),
                 "event_file": event_file,
